@@ -72,3 +72,14 @@ Theorem C08_alap_teams_and_limits : forall p t f e, alap_leaf_dates p t = Some (
             usage p {| bookings := alap_bookings p; placed := nil |} l (l_period (lim_of p l) x) + team_count p l t (t_team (task_of p t)))).
 Proof. exact alap_no_idle_team. Qed.
 Print Assumptions C08_alap_teams_and_limits.
+
+(* ---- second granularity (Model/SubSlot.v): NoIdle - there is a bound b (the task's own start if pinned, else no
+   earlier than the inherited start and every predecessor's end (start) plus gap) such that every slot from the slot
+   of b up to the last slot the task booked, in which the task has no entry, is in the FINAL ledger outside the
+   working time of its resource, or full (at most 1e-6 s left), or closed by a limit whose count for that period has
+   reached its value *)
+Require Import SP.Model.SubSlot SP.Proofs.SubSlotProofs SP.Proofs.SubSlotIdle.
+Theorem C08_subslot : forall p, wf p -> forall t f e,
+  sleaf_dates (sschedule p) t = Some (f, e) -> s_mile (stask_of p t) = false -> NoIdle p (sschedule p) t.
+Proof. exact subslot_no_idle. Qed.
+Print Assumptions C08_subslot.
